@@ -32,6 +32,7 @@ func c06Expect(files []uint64) string {
 	return jl(parts)
 }
 
+// openFdSet lists the descriptor numbers under /proc/self/fd (the listing's own, transient directory descriptor included)
 func openFdSet() map[int]bool {
 	m := map[int]bool{}
 	ents, _ := os.ReadDir("/proc/self/fd")
